@@ -67,8 +67,15 @@ theorem mem_eraseIdx_of (l : List Nat) (hn : l.Nodup) (p : Nat) (hp : p < l.leng
 section
 variable {K : Type} [DecidableEq K] (D : DArith K)
 
-theorem dualBin_some_ok (name : String) (hname : name ∈ ["+", "-", "*", "/", "^"]) (x y : DVal K) :
+theorem dualBin_some_ok (name : String) (hname : name ∈ binRuleNames) (x y : DVal K) :
     ∃ w, dualBin D name x y = some w ∧ (w.ok = true → x.ok = true ∧ y.ok = true) := by
+  by_cases hcmp : name ∈ [">", "<", "!=", "==", "<=", ">="]
+  · exact ⟨_, dualBin_cmp D name hcmp x y, fun h => by simpa using h⟩
+  by_cases hpw : name ∈ ["if", "else"]
+  · exact ⟨_, dualBin_pw D name hpw x y, fun h => by simpa using h⟩
+  have hname : name ∈ ["+", "-", "*", "/", "^"] := by
+    simp only [binRuleNames, List.mem_cons, List.not_mem_nil, or_false] at hname hcmp hpw ⊢
+    grind
   simp only [List.mem_cons, List.not_mem_nil, or_false] at hname
   rcases hname with rfl | rfl | rfl | rfl | rfl
   · exact ⟨_, dualBin_add D x y, fun h => by simpa using h⟩
@@ -93,8 +100,8 @@ def PairRep (vd : ValDer K) (w : DVal K) : Prop :=
 
 include A L
 
-theorem dual_bin_pair (uln : Nat) (hln : findUnaryOp t "ln".toList = .ok uln) (o : Nat)
-    (hname : String.ofList (reprOf t o) ∈ ["+", "-", "*", "/", "^"]) (f g pd : ValDer K)
+theorem dual_bin_pair (hbop : BopAssoc I t) (uln : Nat) (hln : findUnaryOp t "ln".toList = .ok uln) (o : Nat)
+    (hname : String.ofList (reprOf t o) ∈ binRuleNames) (f g pd : ValDer K)
     (wf wg : DVal K) (hf : PairRep I T ρ f wf) (hg : PairRep I T ρ g wg)
     (h : binRule I C t (String.ofList (reprOf t o)) f g = .ok pd) :
     PairRep I T ρ pd ((dualInterp I C t).bin o wf wg) := by
@@ -113,11 +120,11 @@ theorem dual_bin_pair (uln : Nat) (hln : findUnaryOp t "ln".toList = .ok uln) (o
   subst h2
   obtain ⟨f1, f2⟩ := hf rfl
   obtain ⟨g1, g2⟩ := hg rfl
-  exact binRule_sound I C t A L T ρ uln hln _ hname f g pd a a' b b' f1 f2 g1 g2 h w hw hok
+  exact binRule_sound I C t A L T ρ hbop uln hln _ hname f g pd a a' b b' f1 f2 g1 g2 h w hw hok
 
 /-- **`reducePairs` simulates `reduceLoop`** over the dual interpretation -/
-theorem reducePairs_sound (uln : Nat) (hln : findUnaryOp t "ln".toList = .ok uln) (ops : List DBin)
-    (hops : ∀ o ∈ ops, String.ofList (reprOf t o.idx) ∈ ["+", "-", "*", "/", "^"]) :
+theorem reducePairs_sound (hbop : BopAssoc I t) (uln : Nat) (hln : findUnaryOp t "ln".toList = .ok uln)
+    (ops : List DBin) (hops : ∀ o ∈ ops, String.ofList (reprOf t o.idx) ∈ binRuleNames) :
     ∀ (bs ns : List Nat) (pairs : List (ValDer K)) (ws : List (DVal K)) (rem : List Nat)
       (final : List (ValDer K)),
       rem.Pairwise (· < ·) → bs.Nodup → (∀ b ∈ bs, b ∈ rem) →
@@ -166,7 +173,7 @@ theorem reducePairs_sound (uln : Nat) (hln : findUnaryOp t "ln".toList = .ok uln
       have hopm : op ∈ ops := List.mem_of_getElem? hop
       have hgd : ops.getD b default = op := by
         rw [List.getD_eq_getElem?_getD, hop]; rfl
-      have hpair := dual_bin_pair I C t A L T ρ uln hln op.idx (hops op hopm) f g pd wf wg
+      have hpair := dual_bin_pair I C t A L T ρ hbop uln hln op.idx (hops op hopm) f g pd wf wg
         (hrel.2 p f wf hf hwf) (hrel.2 (p + 1) g wg hg hwg) hpd
       -- the specification step
       have hstep : reduceStep (gApply (dualInterp I C t) ops) (ws, rem) b =
